@@ -5,16 +5,17 @@
     [kinds_cert fe fa fc = assemble_cert fe fa && compute_cert3 fe fc] is decided by vm_compute on
     the real IR of every swept problem (tools/props/_certs_kinds.py).
 
-    Proved here, for ALL inputs, fuel and initial capacities: evaluate ~ assemble (kernel level and
-    for the harness' initial states), evaluate ~ compute (kernel level, from any pair of states
-    satisfying [PreC]: compute started where [out->vals] is a live double block, the inputs being
-    the same).  What is not yet a theorem is the glue "assemble's final state satisfies [PreC]
-    against the initial state" ([CERT_kinds_history_full] below); see design.d/CERT_kinds.md. *)
+    Proved here, for ALL inputs, fuel and initial capacities: evaluate ~ assemble and evaluate ~
+    compute at kernel level, and the HISTORY statements of the harness (spec/IRRun.v):
+    [CERT_kinds_history] (assemble; compute = evaluate) and [CERT_kinds_history_revalued]
+    (assemble; compute; compute(re-valued); compute(re-valued) = evaluate on the re-valued inputs).
+    The one failure that is not excluded is [EOutOfBounds] in compute; see design.d/CERT_kinds.md. *)
 
 From Coq Require Import ZArith Bool List String FMapPositive.
 From Flocq Require Import Core BinarySingleNaN.
 From TV Require Import spec.Num gen.IRAst spec.IRSem spec.IRRun
-  proofs.Certs2Base proofs.Certs3Defs proofs.Certs3Base proofs.Certs3Asm proofs.Certs3Cmp.
+  proofs.Certs2Base proofs.Certs2Input proofs.Certs2Store
+  proofs.Certs3Defs proofs.Certs3Base proofs.Certs3Asm proofs.Certs3Cmp proofs.Certs3Hist proofs.Certs3Reval proofs.Certs3Examples.
 Import ListNotations.
 Open Scope Z_scope.
 
@@ -194,16 +195,110 @@ Theorem CERT_kinds_compute_values :
 Proof. exact RC_values. Qed.
 Print Assumptions CERT_kinds_compute_values.
 
-(** NOT YET A THEOREM: the history statement of the harness.  Missing glue: the state assemble ends
-    in satisfies [PreC] against the initial state (assemble leaves the input blocks and input
-    structs alone -- cf. CERT_input_safe_sound --, and leaves [out->vals] a live double block, the
-    same block identifier as evaluate's final value block by CERT_kinds_assemble_sound), plus
-    reading [check_output] through [CERT_kinds_same_structure] / [CERT_kinds_compute_values].
-    [EOutOfBounds] is the one failure that cannot be excluded syntactically: compute stores into a
-    value block of evaluate's FINAL size. *)
-Definition CERT_kinds_history_full : Prop :=
-  forall fe fa fc, kinds_cert fe fa fc = true ->
-  forall fuel ts exp vals exact,
+(** THE HISTORY STATEMENT OF C04 on the harness (spec/IRRun.v), for ALL inputs, any fuel:
+    whenever the evaluate kernel, run on the inputs [ts], produces the expected output
+    ([run_check ... = VOk]: returns 0, structure arrays and values as expected), running assemble
+    and then compute on the same inputs produces the SAME expected output -- or compute stops with
+    [EOutOfBounds]; nothing else can happen (no other trap, no fuel exhaustion with that fuel, no
+    mismatch of structure or values).
+    Certificates assumed (all evaluated on the real IR of every swept kernel):
+      [kinds_cert fe fa fc]        (this file)
+      [input_safe_cert fa]         (CERT_input_safe_sound: assemble's [out->vals] is not an input block)
+      [compute_store_cert fc]      (CERT_compute_store_sound: compute changes no block but [out->vals], no struct)
+    [out_first ts]: the first tensor of [ts] is the output, the others are inputs (what the harness
+    always builds).  [EOutOfBounds] cannot be excluded syntactically: compute stores into a value
+    block of evaluate's FINAL size, and that every store index stays below it needs the
+    monotonicity of the output cursors. *)
+Theorem CERT_kinds_history :
+  forall fe fa fc,
+    kinds_cert fe fa fc = true -> input_safe_cert fa = true -> compute_store_cert fc = true ->
+  forall fuel ts exp vals exact, out_first ts ->
     run_check fuel fe ts exp vals exact = VOk ->
     run_history fuel [(fa, []); (fc, [])] ts exp vals exact = VOk \/
     run_history fuel [(fa, []); (fc, [])] ts exp vals exact = VFail EOutOfBounds.
+Proof. exact kinds_history. Qed.
+Print Assumptions CERT_kinds_history.
+
+(** ... and the [EOutOfBounds] alternative is needed as long as the inputs are arbitrary: real
+    kernels, an ill-formed input (a coordinate outside its dimension): every certificate holds,
+    evaluate yields its expected output, assemble; compute stops with [EOutOfBounds]. *)
+Theorem CERT_kinds_history_oob_witness :
+  kinds_cert oob_evaluate oob_assemble oob_compute = true /\
+  input_safe_cert oob_assemble = true /\ compute_store_cert oob_compute = true /\
+  out_first oob_ts /\
+  run_check 100000 oob_evaluate oob_ts oob_exp [F0; F0] false = VOk /\
+  run_history 100000 [(oob_assemble, []); (oob_compute, [])] oob_ts oob_exp [F0; F0] false = VFail EOutOfBounds.
+Proof. exact oob_witness. Qed.
+Print Assumptions CERT_kinds_history_oob_witness.
+
+Example CERT_kinds_history_instance :
+  out_first [mkTin [2] [Some ([0; 1], [0])] [] true; mkTin [2] [Some ([0; 1], [0])] [F0] false] /\
+  kinds_cert ex_evaluate ex_assemble ex_compute = true /\
+  input_safe_cert ex_assemble = true /\ compute_store_cert ex_compute = true.
+Proof. split; [split; [reflexivity|repeat constructor]|]. vm_compute. auto. Qed.
+
+(** Re-running compute.  [recompute_pre st0' b' c]: [c] holds every block of the initial state
+    [st0'] (laid out for inputs [ts']) and its input structs, has the tensor structs of [b'] (a final
+    state of assemble for inputs of the same structure), every block shaped as in [b'] and the int32
+    blocks of [b'] cell for cell; the value block may hold anything.  From such a state compute
+    reproduces evaluate's output for [ts'] and leaves such a state again. *)
+Theorem CERT_kinds_recompute :
+  forall fe fa fc, compute_cert3 fe fc = true -> compute_store_cert fc = true ->
+  forall fuel t0 rest exp vals exact, out_first (t0 :: rest) ->
+  forall a' tE b' c,
+    call fuel fe (snd (init_state (t0 :: rest))) (fst (init_state (t0 :: rest))) = Returned a' (VInt 0) tE ->
+    check_output a' 1%positive exp vals exact = VOk ->
+    RA0 fe fa a' b' ->
+    (forall ts bV o x, PM.find 1%positive (tensors b') = Some ts -> t_vals ts = VPtr bV o ->
+       PM.find bV (heap b') = Some x -> b_input x = false) ->
+    recompute_pre (fst (init_state (t0 :: rest))) b' c ->
+    (exists c' tr, call fuel fc (snd (init_state (t0 :: rest))) c = Returned c' (VInt 0) tr /\
+                   check_output c' 1%positive exp vals exact = VOk /\
+                   recompute_pre (fst (init_state (t0 :: rest))) b' c') \/
+    call fuel fc (snd (init_state (t0 :: rest))) c = Fail EOutOfBounds.
+Proof. exact compute_after. Qed.
+Print Assumptions CERT_kinds_recompute.
+
+(** The harness' re-valuation ([set_input_vals] of every input, in order: [rv (revals ts')]) turns
+    a state compute may be re-run in for [ts] into one for [ts'] ([ts'] = [ts] with other values of
+    the same lengths): afterwards it holds exactly the blocks [init_state ts'] lays out. *)
+Theorem CERT_kinds_reval_pre :
+  forall ts ts' b' c, out_first ts -> Forall2 tin_sim ts' ts ->
+    recompute_pre (fst (init_state ts)) b' c ->
+    recompute_pre (fst (init_state ts')) b' (rv (revals ts') c).
+Proof. exact reval_pre. Qed.
+Print Assumptions CERT_kinds_reval_pre.
+
+(** THE RE-VALUED HISTORY of C04 (the shape tools/props/C04.py sweeps as hist3): inputs [ts2], [ts3]
+    with the structure of [ts] and other values.  If evaluate produces an expected output on [ts]
+    and on [ts2] (whatever it is) and the expected output [exp, vals] on [ts3], then
+    assemble(ts); compute; compute(re-valued to ts2); compute(re-valued to ts3) produces
+    [exp, vals] -- without re-assembling -- or a compute stops with [EOutOfBounds]. *)
+Theorem CERT_kinds_history_revalued :
+  forall fe fa fc,
+    kinds_cert fe fa fc = true -> input_safe_cert fa = true -> compute_store_cert fc = true ->
+  forall fuel ts ts2 ts3 e1 v1 x1 e2 v2 x2 exp vals exact,
+    out_first ts -> Forall2 tin_sim ts2 ts -> Forall2 tin_sim ts3 ts ->
+    run_check fuel fe ts e1 v1 x1 = VOk ->
+    run_check fuel fe ts2 e2 v2 x2 = VOk ->
+    run_check fuel fe ts3 exp vals exact = VOk ->
+    hist_ok (run_history fuel [(fa, []); (fc, []); (fc, revals ts2); (fc, revals ts3)] ts exp vals exact).
+Proof. exact kinds_history_revalued. Qed.
+Print Assumptions CERT_kinds_history_revalued.
+
+Theorem CERT_kinds_history_revalued1 :
+  forall fe fa fc,
+    kinds_cert fe fa fc = true -> input_safe_cert fa = true -> compute_store_cert fc = true ->
+  forall fuel ts ts3 e1 v1 x1 exp vals exact,
+    out_first ts -> Forall2 tin_sim ts3 ts ->
+    run_check fuel fe ts e1 v1 x1 = VOk ->
+    run_check fuel fe ts3 exp vals exact = VOk ->
+    hist_ok (run_history fuel [(fa, []); (fc, []); (fc, revals ts3)] ts exp vals exact).
+Proof. exact kinds_history_revalued1. Qed.
+Print Assumptions CERT_kinds_history_revalued1.
+
+Example CERT_kinds_revalued_instance :
+  let ts := [mkTin [2] [Some ([0; 1], [0])] [] true; mkTin [2] [Some ([0; 1], [0])] [F0] false] in
+  let ts3 := [mkTin [2] [Some ([0; 1], [0])] [] true; mkTin [2] [Some ([0; 1], [0])] [F1] false] in
+  out_first ts /\ Forall2 tin_sim ts3 ts /\ revals ts3 = [(2%positive, [F1])].
+Proof. split; [split; [reflexivity|repeat constructor]|]. split; [|reflexivity]. repeat constructor. Qed.
